@@ -83,7 +83,10 @@ def tlc(module, cfg, name, workdir, workers=8, timeout=900, simulate=None, seed=
     shutil.rmtree(meta, ignore_errors=True)
     module = Path(module)
     out = workdir / f"{name}.out"
-    jopts = f"-Xss1g -Xmx{xmx}"
+    jtmp = workdir / f"jtmp-{name}"          # TLC unpacks its standard modules into java.io.tmpdir: keep that out of /tmp
+    shutil.rmtree(jtmp, ignore_errors=True)
+    jtmp.mkdir(parents=True, exist_ok=True)
+    jopts = f"-Xss1g -Xmx{xmx} -Djava.io.tmpdir={jtmp.resolve()}"
     if deque:
         jopts += " -Dtlc2.tool.queue.IStateQueue=StateDeque"
     cmd = ["timeout", str(timeout), "tlc", "-workers", str(workers), "-metadir", str(meta), "-cleanup",
@@ -104,6 +107,7 @@ def tlc(module, cfg, name, workdir, workers=8, timeout=900, simulate=None, seed=
     t0 = time.time()
     with open(out, "w") as f:
         p = subprocess.run(cmd, cwd=module.parent, env=e, stdout=f, stderr=subprocess.STDOUT, text=True)
+    shutil.rmtree(jtmp, ignore_errors=True)
     r = TlcResult()
     r.out, r.rc, r.wall = out, p.returncode, time.time() - t0
     r.timed_out = p.returncode == 124
